@@ -186,6 +186,23 @@ def run(ctx):
                 lines.append({"op": "get_pref", "name": rng.choice(PREF_NAMES)})
         lines += [{"op": "set_mathml", "xml": rng.choice(VALID + ["<math><mn>1,234.5</mn><mo>+</mo><mn>1.000,5</mn></math>"])}, {"op": "speech"}, {"op": "braille", "id": ""}, {"op": "nav", "cmd": "ZoomIn"}, {"op": "nav", "cmd": "MoveNext"}]
         recovery(lines, "preference name/value pairs")
+    # stream 2b: EVERY key code 0..300 (and a few huge ones) x modifier combinations, on a valid expression
+    mods = [(False, False, False, False), (True, False, False, False), (False, True, False, False), (True, True, False, False)] if ctx.tier == "quick" else \
+           [(a, b, c, d) for a in (False, True) for b in (False, True) for c in (False, True) for d in (False, True)]
+    for sh, ct, al, me in mods:
+        lines = pre + [{"op": "set_mathml", "xml": VALID[0]}] + [{"op": "key", "k": k, "shift": sh, "ctrl": ct, "alt": al, "meta": me} for k in list(range(0, 301)) + [65535, 2 ** 31, 2 ** 40]]
+        run_session(lines, "every key code")
+    # every navigation command name the library knows, in a row, on three shapes
+    for x in VALID + ["<math><mrow><mo>(</mo><mtable><mtr><mtd><mn>1</mn></mtd><mtd><mn>2</mn></mtd></mtr><mtr><mtd><mn>3</mn></mtd><mtd><mn>4</mn></mtd></mtr></mtable><mo>)</mo></mrow></math>"]:
+        cmds = list(NAV_CMDS)
+        rng.shuffle(cmds)
+        run_session(pre + [{"op": "set_mathml", "xml": x}] + [{"op": "nav", "cmd": c} for c in cmds + cmds], "every navigation command")
+    # stream 4b: the preferences that are compiled into regular expressions or used as paths, with every odd value, then numbers
+    NUMS = ["<math><mn>1,234.5</mn><mo>+</mo><mn>1</mn><mo>,</mo><mn>234</mn><mo>.</mo><mn>5</mn></math>", "<math><mn>1 000</mn><mo>-</mo><mn>3,5</mn><mo>+</mo><mn>.5</mn></math>"]
+    for name in ["BlockSeparators", "DecimalSeparators", "DecimalSeparator", "Language", "BrailleCode", "SpeechStyle", "PauseFactor", "Rate", "CapitalLetters_Pitch"]:
+        for value in PREF_VALUES:
+            run_session(pre + [{"op": "set_pref", "name": name, "value": value}, {"op": "set_mathml", "xml": NUMS[0]}, {"op": "speech"}, {"op": "braille", "id": ""},
+                               {"op": "set_mathml", "xml": NUMS[1]}, {"op": "speech"}, {"op": "nav", "cmd": "ZoomIn"}], "compiled / path-like preference x odd value")
     # stream 5: deep and wide nesting (stack exhaustion), long tokens
     # (a call that is merely slow is not a violation: braille of 1000 nested msup takes a minute; the bound is 15 minutes)
     depths = [50, 200, 400] if ctx.tier == "quick" else [50, 200, 400, 1000, 3000, 10000]
